@@ -51,6 +51,9 @@ type scenario struct {
 	SndScript []ev `json:"snd,omitempty"`
 	RcvScript []ev `json:"rcv,omitempty"`
 	Bound int  `json:"bound,omitempty"`
+	// burst: the receiver stalls (does not read, its socket buffer is tiny) while the sender writes Burst DATA
+	// frames of one byte each, all within the windows; then the receiver resumes and nothing else is sent.
+	Burst int `json:"burst,omitempty"`
 }
 
 type finding struct{ Sig, Desc string }
@@ -96,7 +99,17 @@ func run(sc scenario) (body func(), check func(r *vrt.Result) []finding) {
 			}
 			fs = append(fs, finding{sig, fmt.Sprintf(format, a...)})
 		}
-		w := hw.New(hw.Options{})
+		opts := hw.Options{}
+		var stall *vrt.Gate
+		if sc.Burst > 0 {
+			stall = &vrt.Gate{}
+			if sc.Dir == "c2s" {
+				opts.ServerReaderGate, opts.ProxyToServerCap = stall, 32
+			} else {
+				opts.ClientReaderGate, opts.ProxyToClientCap = stall, 32
+			}
+		}
+		w := hw.New(opts)
 		w.Client.WritePreface(0)
 		vrt.WaitQuiescent()
 		if w.Server == nil {
@@ -244,7 +257,20 @@ func run(sc scenario) (body func(), check func(r *vrt.Result) []finding) {
 			stateKeys = append(stateKeys, fmt.Sprintf("w1=%d w3=%d wc=%d p1=%d p3=%d mfs=%d", L.win[1], L.win[3], L.winConn, L.sentPay[1]-L.recvPay[1], L.sentPay[3]-L.recvPay[3], L.mfs))
 		}
 		evalState("opening")
-		if !sc.Conc {
+		if sc.Burst > 0 {
+			// the receiver's reader was gated from the start: the opening frames toward it are still queued, which is
+			// part of the stall. The sender now bursts; then the receiver resumes; at quiescence everything that the
+			// windows allow must have been delivered although no further input arrives.
+			for i := 0; i < sc.Burst; i++ {
+				e := ev{Who: "snd", T: "data", Stream: 1, N: 1}
+				applySend(e)
+				snd.Write(spec(e))
+			}
+			vrt.WaitQuiescent()
+			stall.Open()
+			vrt.WaitQuiescent()
+			evalState(fmt.Sprintf("after a burst of %d one-byte DATA frames toward a stalled receiver that then resumed", sc.Burst))
+		} else if !sc.Conc {
 			for i, e := range sc.Hist {
 				if e.Who == "snd" {
 					applySend(e)
@@ -397,6 +423,12 @@ func scenarios(tier string) []scenario {
 		gen("s2c", 4, red, 4)
 		gen("c2s", 0, red, 5)
 		gen("s2c", 0, red, 5)
+	}
+	// bursts toward a stalled receiver (more frames than the relay's internal queue holds)
+	for _, dir := range []string{"c2s", "s2c"} {
+		for _, n := range []int{14, 15, 16, 17, 18, 40} {
+			out = append(out, scenario{Dir: dir, RootIWS: -1, Burst: n})
+		}
 	}
 	// concurrent scripts
 	b := 1
